@@ -99,10 +99,9 @@ static void setup(void)
         /* update()'s postconditions for a registered class (units/hashing, units/vptrs) */
         __CPROVER_assume(ix < vptrs.n && V.cellV == (const uintptr_t *)g_static_vptr_dyn);
         __CPROVER_assume(!YV_FACET_INDIRECT || (ix < indirect_vptrs.n && V.cellI == (const uintptr_t *const *)&g_static_vptr_dyn));
-    } else {
-        /* an unregistered class has no v-table: its static v-table pointer variable was never written */
-        g_static_vptr_dyn = (uintptr_t *)0;
     }
+    /* an unregistered class: its static v-table pointer variable holds anything - null if it was never registered,
+       a stale pointer if it was registered and unregistered earlier (nothing resets it) */
 }
 #define SAME_CLASS (g_dyn_id == g_static_id)
 
@@ -122,7 +121,11 @@ void h_ctor(void)
     YV_COVER(!g_registered && SAME_CLASS, "unregistered class, exact static type");
     YV_COVER(!g_registered && !SAME_CLASS, "unregistered class through a base reference");
 #endif
+    struct yv_statics P0 = P; const uintptr_t *cv0 = V.cellV; const uintptr_t *const *ci0 = V.cellI; size_t vn0 = vptrs.n; uintptr_t *sv0 = g_static_vptr_dyn;
     virtual_ptr_ctor(&p, &object);
+    __CPROVER_assert(P.hash_mult_ == P0.hash_mult_ && P.hash_shift_ == P0.hash_shift_ && P.hash_length_ == P0.hash_length_ && P.hash_max_ == P0.hash_max_ &&
+                     V.cellV == cv0 && V.cellI == ci0 && vptrs.n == vn0 && g_static_vptr_dyn == sv0,
+                     "C16 constructing a virtual_ptr writes nothing but the new object (hash parameters, vptr vectors, static vptrs are only read)");
     __CPROVER_assert(g_registered, "C15 construction from an object of an unregistered class does not complete under the checked policy");
     __CPROVER_assert(p.obj == &object, "C09 get() gives back the original object");
 #if YV_FACET_INDIRECT
